@@ -145,7 +145,7 @@ def internal_tags(case):
     for w in INTERNAL:
         if w in names:
             tags.append(f"patchname:{w}")
-    if case["key"]["kind"] == "str" and case["key"]["s"] in INTERNAL and case["phase"] in ("looked", "applied"):
+    if case["key"]["kind"] == "str" and case["key"]["s"] in INTERNAL and case["phase"] in ("looked", "applied", "reapplied"):
         tags.append(f"key:{case['key']['s']}")
     if tags:
         tags.insert(0, "internal_word")
@@ -174,24 +174,29 @@ def same_patch(patch, spec_patch):
 
 def replay(pyhf, backend, precision, chunk, header, seed):
     out = {"n": 0, "nontrivial": 0, "findings": [], "classes": {}, "phases": {}, "impl_agree": 0, "drift": {},
-           "blocked": 0, "tolerated": {}, "machinery": None, "digest_checks": 0, "applied_valid": 0, "applied_invalid_ws": 0}
+           "blocked": 0, "tolerated": {}, "doc_mutated": 0, "machinery": None, "digest_checks": 0, "applied_valid": 0, "applied_invalid_ws": 0}
     recorded = [tree(r) for r in header["recorded"]]
     assert sorted(header["keyorder"]) == list(header["keyorder"]), "KeyOrder of PatchSet.tla is not Python's sort order"
     w_ref = recorded[0]
+    flagged = []
 
     def add(case, key, detail, tags):
         tags = list(tags) + internal_tags(case)
+        flagged.append(1)
         cls = "|".join(tags)
         out["classes"][cls] = out["classes"].get(cls, 0) + 1
         if out["classes"][cls] <= 2 and len(out["findings"]) < 60:
             out["findings"].append(("C17", key, dict(detail, case=case), tags))
 
     def drift(what):
-        out["drift"][what] = out["drift"].get(what, 0) + 1
+        # drift = the observation satisfies the property but not the transcription; a case with a finding is not drift
+        if not flagged:
+            out["drift"][what] = out["drift"].get(what, 0) + 1
 
     for line in chunk:
         case = json.loads(line)
         phase = case["phase"]
+        del flagged[:]
         out["n"] += 1
         out["phases"][phase] = out["phases"].get(phase, 0) + 1
         spec = build_spec(pyhf, case, recorded)
@@ -357,9 +362,19 @@ def replay(pyhf, backend, precision, chunk, header, seed):
             impl_matches("returned" if err is None else "raised", ret, err)
             continue
 
-        if phase == "applied":
+        if phase in ("applied", "reapplied"):
+            # apply may touch the PatchSet object: never share it between cases
+            _CACHE.pop(held_text, None)
             key = concrete_key(case["key"])
             kk = case["key"]["kind"]
+            second = phase == "reapplied"
+            first_obs = None
+            if second:
+                try:
+                    ps.apply(w, key)
+                    first_obs = "returned"
+                except Exception as e:  # noqa: BLE001
+                    first_obs = f"{type(e).__name__}: {str(e)[:120]}"
             try:
                 got = ps.apply(w, key)
                 err = None
@@ -368,6 +383,15 @@ def replay(pyhf, backend, precision, chunk, header, seed):
             det = {"spec": spec, "key": repr(key), "workspace": w, "variant": case["vd"], "definition_status": d["status"], "definition_errs": d["errs"],
                    "observed": f"{type(err).__name__}: {str(err)[:200]}" if err is not None else "returned", "impl_layer_predicts": [im["status"], im["errs"]]}
             optag = "ops:" + ("+".join(o["op"] for o in case["patches"][case["target"] - 1]["ops"]) if case["target"] >= 1 else "-")
+            doc_mutated = json.dumps(held_spec) != held_text
+            if doc_mutated:
+                out["doc_mutated"] += 1
+                det["patches_of_the_document_after_apply"] = held_spec["patches"]
+            pre = ["apply"] if not second else ["reapply"]
+            if second:
+                det["first_application"] = first_obs
+            which = "apply" if not second else "second apply of the same patch on the same PatchSet"
+            invalid_result = False
             if d["status"] == "ok":
                 expected = tree(d["result"])
                 try:
@@ -381,36 +405,38 @@ def replay(pyhf, backend, precision, chunk, header, seed):
                     out["applied_valid"] += 1
                     det["expected"] = expected
                     if err is not None:
-                        add(case, f"apply raised {det['observed']} where the JSON patch applies and yields a valid workspace", det,
-                            ["apply:raises", f"exc:{type(err).__name__}", f"keykind:{kk}", vtag])
+                        add(case, f"{which} raised {det['observed']} where the JSON patch applies and yields a valid workspace", det,
+                            [f"{pre[0]}:raises", f"exc:{type(err).__name__}", optag] + ([] if second else [f"keykind:{kk}", vtag]))
                     else:
                         det["got"] = json.loads(json.dumps(got))
                         if not isinstance(got, pyhf.Workspace):
-                            add(case, f"apply returned a {type(got).__name__}, not a Workspace", det, ["apply:not_workspace"])
+                            add(case, f"{which} returned a {type(got).__name__}, not a Workspace", det, [f"{pre[0]}:not_workspace"])
                         elif dict(got) != expected:
-                            add(case, "apply returned another workspace than the JSON patch of the designated patch applied to the input", det,
-                                ["apply:wrong_result", f"keykind:{kk}", optag, vtag])
+                            add(case, f"{which} returned another workspace than the JSON patch of the designated patch applied to the input", det,
+                                [f"{pre[0]}:wrong_result", optag] + ([] if second else [f"keykind:{kk}", vtag]))
                         elif got is w:
-                            add(case, "apply returned the input object", det, ["apply:returns_input"])
+                            add(case, f"{which} returned the input object", det, [f"{pre[0]}:returns_input"])
                 else:
                     out["applied_invalid_ws"] += 1
+                    invalid_result = True
                     if err is None or not isinstance(err, type(ws_exc)):
-                        add(case, f"patched document is not a workspace ({type(ws_exc).__name__}) but apply {det['observed']}", det, ["apply:invalid_result_accepted"])
+                        add(case, f"patched document is not a workspace ({type(ws_exc).__name__}) but {which} {det['observed']}", det,
+                            [f"{pre[0]}:invalid_result_accepted", optag])
             else:
                 if err is None:
-                    add(case, f"apply returned a workspace where the definition demands {'/'.join(d['errs'])}", det,
-                        ["apply:returned_instead_of_error", "want:" + "+".join(sorted(d["errs"])), f"keykind:{kk}", vtag])
+                    add(case, f"{which} returned a workspace where the definition demands {'/'.join(d['errs'])}", det,
+                        [f"{pre[0]}:returned_instead_of_error", "want:" + "+".join(sorted(d["errs"])), f"keykind:{kk}", vtag])
                 elif not (set(d["errs"]) & exc_names(pyhf, err)):
-                    add(case, f"apply raised {type(err).__name__} where the definition demands {'/'.join(d['errs'])}", det,
-                        ["apply:wrong_exception", "want:" + "+".join(sorted(d["errs"])), f"exc:{type(err).__name__}", f"keykind:{kk}"])
+                    add(case, f"{which} raised {type(err).__name__} where the definition demands {'/'.join(d['errs'])}", det,
+                        [f"{pre[0]}:wrong_exception", "want:" + "+".join(sorted(d["errs"])), f"exc:{type(err).__name__}", f"keykind:{kk}"])
             if json.dumps(w) != w_before:
                 det["workspace_after"] = w
                 det["workspace_before"] = json.loads(w_before)
                 add(case, "apply modified the workspace it was given", det, ["apply:mutated_input", optag])
-            if json.dumps(held_spec) != held_text:
-                add(case, "apply modified the patch-set document the PatchSet was built from", det, ["mutates:patchset_spec", optag])
-                _CACHE.pop(held_text, None)
-            impl_matches("returned" if err is None else "raised", got, err)
+            if invalid_result and err is not None and "InvalidSpecification" in exc_names(pyhf, err):
+                out["impl_agree"] += 1      # workspace validation is outside the transcribed layer
+            else:
+                impl_matches("returned" if err is None else "raised", got, err)
             continue
 
         out["machinery"] = f"unknown phase {phase}"
